@@ -867,3 +867,110 @@ proof fn lemma_unique_concat(m: Seq<(Seq<char>, J)>, s: Strat, pm: Seq<(Seq<char
         if q < pm.len() { assert(pm[q].0 == K_SD()); } else { assert(reserved(ex[q - pm.len()].0)); }
     }
 }
+proof fn lemma_extras_member(m: Seq<(Seq<char>, J)>, s: Strat, pm: Seq<(Seq<char>, J)>, ex: Seq<(Seq<char>, J)>, ds: DS, off: int, i: int)
+    requires extras_ok(m, ex), obj_members_ok(m, s, pm), enc_members(m, s, pm, sd_strs(pm), ds, off, m.len()), 0 <= i < m.len() + ex.len(), off >= 0,
+    ensures ({ let m2 = m + ex; let s2 = masked(s, ex); let pm2 = pm + ex;
+        enc_member(m2, s2, pm2, sd_strs(pm2), ds, off, i)
+        && (if i < m.len() { m_p(m2, s2, pm2, ds, off, i) == m_p(m, s, pm, ds, off, i) && m_off(m2, s2, off, i) == m_off(m, s, off, i)
+                && m_sub(m2, s2, i) == m_sub(m, s, i) && m_hid(m2, s2, i) == m_hid(m, s, i) && m2[i] == m[i]
+                && (m_hid(m, s, i) ==> m_disc(m2, s2, ds, off, i) == m_disc(m, s, ds, off, i))
+                && occ_member(m2, s2, pm2, ds, off, i) == occ_member(m, s, pm, ds, off, i)
+                && sep_member(m2, s2, pm2, ds, off, i) == sep_member(m, s, pm, ds, off, i) }
+            else { occ_member(m2, s2, pm2, ds, off, i) == Set::<Dig>::empty() && sep_member(m2, s2, pm2, ds, off, i) && !m_hid(m2, s2, i) }) })
+{
+    let m2 = m + ex; let s2 = masked(s, ex); let pm2 = pm + ex;
+    lemma_masked(m, s, ex, i);
+    lemma_hcount_masked(m, s, ex, i as nat);
+    lemma_unique_concat(m, s, pm, ex);
+    if i < m.len() {
+        lemma_enc_members_at(m, s, pm, sd_strs(pm), ds, off, m.len(), i);
+        if !m_hid(m, s, i) { lemma_j_get_concat(pm, ex, m[i].0); }
+    } else {
+        let e = i - m.len();
+        lemma_no_val(ex[e].1, ds, m_off(m2, s2, off, i));
+    }
+}
+proof fn lemma_extras_members(m: Seq<(Seq<char>, J)>, s: Strat, pm: Seq<(Seq<char>, J)>, ex: Seq<(Seq<char>, J)>, ds: DS, off: int, n: nat)
+    requires extras_ok(m, ex), obj_members_ok(m, s, pm), enc_members(m, s, pm, sd_strs(pm), ds, off, m.len()), n <= m.len() + ex.len(), off >= 0,
+        sep_members(m, s, pm, ds, off, m.len()),
+    ensures ({ let m2 = m + ex; let s2 = masked(s, ex); let pm2 = pm + ex;
+        enc_members(m2, s2, pm2, sd_strs(pm2), ds, off, n)
+        && occ_members(m2, s2, pm2, ds, off, n) == occ_members(m, s, pm, ds, off, if n <= m.len() { n } else { m.len() })
+        && sep_members(m2, s2, pm2, ds, off, n) })
+    decreases n
+{
+    if n > 0 {
+        lemma_extras_members(m, s, pm, ex, ds, off, (n - 1) as nat);
+        lemma_extras_member(m, s, pm, ex, ds, off, n - 1);
+        let m2 = m + ex; let s2 = masked(s, ex); let pm2 = pm + ex;
+        if n <= m.len() {
+            lemma_sep_members_prefix(m, s, pm, ds, off, m.len(), n);
+        } else {
+            let prev = occ_members(m2, s2, pm2, ds, off, (n - 1) as nat);
+            assert(prev.union(Set::<Dig>::empty()) =~= prev);
+        }
+    }
+}
+proof fn lemma_sep_members_prefix(m: Seq<(Seq<char>, J)>, s: Strat, pm: Seq<(Seq<char>, J)>, ds: DS, off: int, n: nat, k: nat)
+    requires sep_members(m, s, pm, ds, off, n), k <= n
+    ensures sep_members(m, s, pm, ds, off, k)
+    decreases n
+{ if k < n { lemma_sep_members_prefix(m, s, pm, ds, off, (n - 1) as nat, k); } }
+// the marked object extended by clear members encodes the claim object extended by them, under the masked strategy
+proof fn lemma_extras(m: Seq<(Seq<char>, J)>, s: Strat, pm: Seq<(Seq<char>, J)>, ex: Seq<(Seq<char>, J)>, ds: DS, off: int)
+    requires extras_ok(m, ex), enc(J::Obj(m), s, J::Obj(pm), ds, off), sep(J::Obj(m), s, J::Obj(pm), ds, off), wf_j(J::Obj(m)), !has_reserved(J::Obj(m)), off >= 0,
+    ensures ({ let m2 = m + ex; let s2 = masked(s, ex); let pm2 = pm + ex;
+        enc(J::Obj(m2), s2, J::Obj(pm2), ds, off) && sep(J::Obj(m2), s2, J::Obj(pm2), ds, off) && wf_j(J::Obj(m2)) && !has_reserved(J::Obj(m2))
+        && hcount(J::Obj(m2), s2) == hcount(J::Obj(m), s) && occ(J::Obj(m2), s2, J::Obj(pm2), ds, off) == occ(J::Obj(m), s, J::Obj(pm), ds, off) })
+{
+    let m2 = m + ex; let s2 = masked(s, ex); let pm2 = pm + ex;
+    let sdl = sd_strs(pm);
+    lemma_unique_concat(m, s, pm, ex);
+    lemma_extras_members(m, s, pm, ex, ds, off, m2.len());
+    lemma_hcount_masked(m, s, ex, m2.len());
+    // sd_only
+    assert forall|q: int| 0 <= q < sdl.len() implies member_digest(m2, s2, ds, off, m2.len(), #[trigger] sdl[q]) || decoy_digest(sdl[q]) by {
+        if member_digest(m, s, ds, off, m.len(), sdl[q]) {
+            let i = choose|i: int| 0 <= i < m.len() && i < m.len() && sd_spec(s, (#[trigger] m[i]).0) && sdl[q] == member_digest_at(m, s, ds, off, i);
+            lemma_masked(m, s, ex, i);
+            lemma_hcount_masked(m, s, ex, i as nat);
+            assert(member_digest_at(m2, s2, ds, off, i) == sdl[q]);
+            assert(0 <= i < m2.len() && sd_spec(s2, m2[i].0));
+        }
+    }
+    // members are the digest list, visible members, or extras
+    assert forall|q: int| 0 <= q < pm2.len() implies (#[trigger] pm2[q]).0 == K_SD()
+        || exists|i: int| 0 <= i < m2.len() && #[trigger] m2[i].0 == pm2[q].0 && !sd_spec(s2, m2[i].0) by {
+        if q < pm.len() {
+            if pm[q].0 != K_SD() {
+                let i = choose|i: int| 0 <= i < m.len() && #[trigger] m[i].0 == pm[q].0 && !sd_spec(s, m[i].0);
+                lemma_masked(m, s, ex, i);
+                assert(m2[i].0 == pm2[q].0);
+            }
+        } else {
+            let i = m.len() + (q - pm.len());
+            lemma_masked(m, s, ex, i);
+            assert(m2[i].0 == pm2[q].0);
+        }
+    }
+    // well-formedness of the extended claim object
+    assert(keys_unique(m2)) by {
+        assert forall|a: int, b: int| 0 <= a < b < m2.len() implies m2[a].0 != m2[b].0 by {
+            if b < m.len() { assert(m[a].0 != m[b].0); } else if a >= m.len() { assert(ex[a - m.len()].0 != ex[b - m.len()].0); }
+            else { assert(ex[b - m.len()].0 != m[a].0); }
+        }
+    }
+    lemma_wf_concat(m, ex);
+}
+proof fn lemma_wf_concat(m: Seq<(Seq<char>, J)>, ex: Seq<(Seq<char>, J)>)
+    requires wf_entries(m), !has_reserved_entries(m),
+        forall|e: int| 0 <= e < ex.len() ==> wf_j((#[trigger] ex[e]).1) && !has_reserved(ex[e].1) && !reserved(ex[e].0),
+    ensures wf_entries(m + ex), !has_reserved_entries(m + ex)
+    decreases ex.len()
+{
+    if ex.len() == 0 { assert(m + ex =~= m); } else {
+        lemma_wf_concat(m, ex.drop_last());
+        assert((m + ex).drop_last() =~= m + ex.drop_last());
+        assert((m + ex).last() == ex[ex.len() - 1]);
+    }
+}
